@@ -25,7 +25,7 @@ The end-to-end claim is about `bin/martinize2` as executed by CPython and is *ex
    `C18.go_eligible_symm` (set comprehensions over pairs: no dependence on enumeration order),
    `C08.leftover_order_indep`.
 3. **the comparator** — `canonTop_invariant`, `canonTop_injective_mod_presentation`, `interRec_faithful`,
-   `atomRec_faithful`, `canonTop_complete`: two topologies have the same canonical form *iff* they differ by a presentation
+   `atomRec_faithful`, `canonTop_complete`, `canonTop_presentation_exists`: two topologies have the same canonical form *iff* they differ by a presentation
    change (order of atom lines, consistent renumbering, order of interaction lines, reversal of reversible
    interactions), so the paired-run comparison is neither too weak nor too strong.
 -/
@@ -247,6 +247,68 @@ theorem interRec_faithful (sym : Tok → Bool) (as as' : List Atom) (i i' : Inte
     · rw [ha]
     · rw [ha, hsym, orient_reverse]
 
+/-- **canonTop_presentation_exists** (the strong form of injectivity).  If two well-formed topologies with distinct
+atom indices and distinct particle identities have the same canonical form, then the second IS a presentation of
+the first: the renumbering `transport` (send the index of a particle to the index of the particle with the same
+(resid, name) in the other file) turns the atom lines of the first into a permutation of those of the second and
+its interaction lines, up to admissible reversal, into a permutation of those of the second. -/
+theorem canonTop_presentation_exists (sym : Tok → Bool) (T T' : Top)
+    (hk : (T.atoms.map (·.key)).Nodup) (hk' : (T'.atoms.map (·.key)).Nodup)
+    (hid : (T.atoms.map Atom.id).Nodup) (hid' : (T'.atoms.map Atom.id).Nodup)
+    (hwf : ∀ i ∈ T.inters, ∀ k ∈ i.atoms, k ∈ T.atoms.map (·.key))
+    (hwf' : ∀ i ∈ T'.inters, ∀ k ∈ i.atoms, k ∈ T'.atoms.map (·.key))
+    (h : canonTop sym T = canonTop sym T') :
+    Presents sym (transport T.atoms T'.atoms) T T' := by
+  obtain ⟨hA, hI⟩ := canonTop_injective_mod_presentation sym T T' h
+  have F : ∀ a ∈ T.atoms, ∃ b ∈ T'.atoms, a.rekey (transport T.atoms T'.atoms) = b := by
+    intro a ha
+    have hm : atomRec a ∈ T'.atoms.map atomRec := hA.subset (List.mem_map_of_mem ha)
+    obtain ⟨b, hb, hbe⟩ := List.mem_map.mp hm
+    have hf := (atomRec_faithful b a).mp hbe
+    have e : a.id = b.id := by unfold Atom.id; rw [hf.1, hf.2.1]
+    refine ⟨b, hb, ?_⟩
+    have hkey := transport_of_mem hk hid' ha hb e
+    obtain ⟨ak, ar, an, af⟩ := a
+    obtain ⟨bk, br, bn, bf⟩ := b
+    simp only [Atom.rekey] at hkey ⊢
+    simp only at hf
+    rw [hkey, hf.1, hf.2.1, hf.2.2]
+  constructor
+  · have nd1 : T'.atoms.Nodup := List.Nodup.of_map _ hid'
+    have nd2 : (T.atoms.map (Atom.rekey (transport T.atoms T'.atoms))).Nodup := by
+      apply List.Nodup.of_map Atom.id
+      rw [List.map_map]
+      exact hid
+    refine (List.perm_ext_iff_of_nodup nd1 nd2).mpr (fun x => ⟨fun hx => ?_, fun hx => ?_⟩)
+    · have hm : atomRec x ∈ T.atoms.map atomRec := hA.symm.subset (List.mem_map_of_mem hx)
+      obtain ⟨a, ha, hae⟩ := List.mem_map.mp hm
+      obtain ⟨b, hb, hab⟩ := F a ha
+      have hbx : b.id = x.id := by
+        have e1 : atomRec b = atomRec x := by rw [← hab, atomRec_rekey, hae]
+        have := (atomRec_faithful b x).mp e1
+        unfold Atom.id; rw [this.1, this.2.1]
+      have : b = x := List.inj_on_of_nodup_map hid' hb hx hbx
+      rw [← this, ← hab]
+      exact List.mem_map_of_mem ha
+    · obtain ⟨a, ha, rfl⟩ := List.mem_map.mp hx
+      obtain ⟨b, hb, hab⟩ := F a ha
+      rw [hab]; exact hb
+  · obtain ⟨l, hl, hf⟩ := exists_perm_forall₂ (interRec sym T.atoms) (interRec sym T'.atoms) T.inters T'.inters hI
+    refine ⟨l, hl, hf.imp_mem ?_⟩
+    intro i hi i' hi' hR
+    have hi'' : i' ∈ T'.inters := hl.symm.subset hi'
+    obtain ⟨hs, hp, ha⟩ := (interRec_faithful sym T.atoms T'.atoms i i').mp hR
+    refine ⟨hs.symm, hp.symm, ?_⟩
+    rcases ha with ha | ⟨hsym, ha⟩
+    · left
+      exact ids_transport hk hk' hid' i.atoms i'.atoms (hwf i hi) (hwf' i' hi'') ha
+    · right
+      refine ⟨hsym, ?_⟩
+      rw [← List.map_reverse] at ha
+      have := ids_transport hk hk' hid' i.atoms i'.atoms.reverse (hwf i hi)
+        (fun k hk => hwf' i' hi'' k (List.mem_reverse.mp hk)) ha
+      rw [← this, List.reverse_reverse]
+
 /-! ### non-vacuity: a concrete presentation change satisfying every hypothesis -/
 namespace Ex
 
@@ -275,6 +337,11 @@ theorem presents : Presents sym ρ T T' where
 
 example : canonTop sym T' = canonTop sym T :=
   canonTop_invariant sym ρ T T' (by decide) (by decide) presents
+
+/-- and back: the equality of the canonical forms yields a presentation (all hypotheses hold for `T`, `T'`) -/
+example : Presents sym (transport T.atoms T'.atoms) T T' :=
+  canonTop_presentation_exists sym T T' (by decide) (by decide) (by decide) (by decide) (by decide) (by decide)
+    (canonTop_invariant sym ρ T T' (by decide) (by decide) presents).symm
 
 end Ex
 
